@@ -218,7 +218,9 @@ func argClass(d string) string {
 // validVarName is the documented grammar: letter or underscore, then word characters, then any number of [digits] groups.
 func validVarName(s string) bool {
 	i := 0
-	isW := func(b byte) bool { return b == '_' || (b >= '0' && b <= '9') || (b >= 'a' && b <= 'z') || (b >= 'A' && b <= 'Z') }
+	isW := func(b byte) bool {
+		return b == '_' || (b >= '0' && b <= '9') || (b >= 'a' && b <= 'z') || (b >= 'A' && b <= 'Z')
+	}
 	if len(s) == 0 || !isW(s[0]) || (s[0] >= '0' && s[0] <= '9') {
 		return false
 	}
@@ -518,7 +520,9 @@ func init() {
 				}
 			}
 			sp = append(sp, h.Space{Name: "message-name-with-each-space-rune", Count: uint64(len(spaceRunes) * 3),
-				Describe: func(i uint64) interface{} { return fmt.Sprintf("name with U+%04X at position %d", spaceRunes[i/3], i%3) },
+				Describe: func(i uint64) interface{} {
+					return fmt.Sprintf("name with U+%04X at position %d", spaceRunes[i/3], i%3)
+				},
 				Run: func(c *h.Ctx, i uint64) {
 					r := string(spaceRunes[i/3])
 					name := []string{r + "ab", "a" + r + "b", "ab" + r}[i%3]
@@ -547,7 +551,9 @@ func init() {
 			names = append(names, "", "a[0]", "a[01]", "a[0][1]", "a[0]b", "a[]", "a[-1]", "a[0", "a0]", "9a", "_9", "é", "aé", "a[٣]", "...", "...[0]", "...[12]", "....", "..", "...[a]", "...[0][1]", "a...", "...a", "0b1", "a-b", "a.b", "T", "L", "BOOLEAN", "a\n", "\ta")
 			nodeKinds := []ref.Kind{ref.I2, ref.U4, ref.F8, ref.B, ref.BOOLEAN, ref.A, ref.L}
 			sp = append(sp, h.Space{Name: "variable-names-x-node-kind", Count: uint64(len(names) * len(nodeKinds)),
-				Describe: func(i uint64) interface{} { return fmt.Sprintf("variable name %q in %s", names[i/uint64(len(nodeKinds))], nodeKinds[i%uint64(len(nodeKinds))]) },
+				Describe: func(i uint64) interface{} {
+					return fmt.Sprintf("variable name %q in %s", names[i/uint64(len(nodeKinds))], nodeKinds[i%uint64(len(nodeKinds))])
+				},
 				Run: func(c *h.Ctx, i uint64) {
 					name, k := names[i/uint64(len(nodeKinds))], nodeKinds[i%uint64(len(nodeKinds))]
 					valid := validVarName(name)
@@ -597,8 +603,12 @@ func init() {
 				{"duplicate list variables", func() ast.ItemNode { return ast.NewListNode("x", "x") }, false},
 				{"duplicate across siblings", func() ast.ItemNode { return ast.NewListNode(u("x"), u("x")) }, false},
 				{"duplicate list variable vs child", func() ast.ItemNode { return ast.NewListNode(u("x"), "x") }, false},
-				{"duplicate across depth", func() ast.ItemNode { return ast.NewListNode(u("x"), ast.NewListNode(ast.NewListNode(ast.NewASCIINodeVariable("x", 0, -1)))) }, false},
-				{"duplicate ascii vs boolean", func() ast.ItemNode { return ast.NewListNode(ast.NewASCIINodeVariable("x", 0, -1), ast.NewBooleanNode("x")) }, false},
+				{"duplicate across depth", func() ast.ItemNode {
+					return ast.NewListNode(u("x"), ast.NewListNode(ast.NewListNode(ast.NewASCIINodeVariable("x", 0, -1))))
+				}, false},
+				{"duplicate ascii vs boolean", func() ast.ItemNode {
+					return ast.NewListNode(ast.NewASCIINodeVariable("x", 0, -1), ast.NewBooleanNode("x"))
+				}, false},
 				{"distinct names", func() ast.ItemNode { return ast.NewListNode(u("x"), u("y"), "z", ast.NewListNode(u("x0"))) }, true},
 				{"names differing in index", func() ast.ItemNode { return ast.NewListNode(u("x[0]"), u("x[1]"), u("x")) }, true},
 				{"ellipsis first", func() ast.ItemNode { return ast.NewListNode("...", u(1)) }, false},
